@@ -128,6 +128,18 @@ Theorem C17_base_meta_preserved : forall (T : Type) (O : ops T) (V : variant) (e
   exists m0 m, nth_error env (leftvar e) = Some (MB m0) /\ v = MB m /\ bmeta m = bmeta m0.
 Proof. exact @base_meta_preserved. Qed.
 
+(* m[i] = value: pointwise replacement of the parameters; every query is a function of the current
+   parameters (no stale state exists in the model -- the history correspondence ties this to the code) *)
+Theorem C17_setitem_pointwise : forall (T : Type) (O : ops T) (a : msg (T := T)) (i : nat) (p : list T),
+  i < length (elems a) ->
+  nth_error (elems (setitem a i p)) i = Some p
+  /\ (forall j, j <> i -> nth_error (elems (setitem a i p)) j = nth_error (elems a) j)
+  /\ nth_error (nat_of O (setitem a i p)) i = Some (to_nat O (fam a) p)
+  /\ (forall j, j <> i -> nth_error (nat_of O (setitem a i p)) j = nth_error (nat_of O a) j)
+  /\ length (elems (setitem a i p)) = length (elems a)
+  /\ bmeta (setitem a i p) = bmeta a /\ fam (setitem a i p) = fam a /\ lognorm (setitem a i p) = lognorm a.
+Proof. exact @setitem_pointwise. Qed.
+
 (* limits of a transformed message: lost by the pinned code (refuted + exact description of what
    happens), kept by the proposed repair for every expression *)
 Theorem C17_transformed_limits_refuted : exists (env : list (mval (T := Q))) (e : expr (T := Q)) v v0,
